@@ -576,6 +576,8 @@ pub fn run_c19(ctx: &mut Ctx) {
         };
         ctx.evals += 1;
         ctx.count(src.name());
+        // judged call first (see run_c03)
+        ctx.judge_bytes(b, &mut |c| c19_check_str(c));
         let ok = s.parse::<LanguageIdentifier>().is_ok();
         ctx.count(if ok { "string:parses" } else { "string:rejected" });
         if crate::refspec::n_subtags(b) >= 2 {
@@ -584,7 +586,6 @@ pub fn run_c19(ctx: &mut Ctx) {
         if ok && ctx.wants_sample("string") {
             ctx.sample("string", || json!({"input": s, "json_all_escaped": json_escape_all(s), "json_mixed": json_escape_mixed(s)}));
         }
-        ctx.judge_bytes(b, &mut |c| c19_check_str(c));
     });
     // reachable values (histories, from_parts, ...)
     let n = if quick { 100_000u64 } else { 5_000_000 } / ctx.nshards as u64;
